@@ -393,6 +393,9 @@ func (g *gen) cfgRandom(class string, n int) {
 func (g *gen) playSeq(class string, n int) {
 	r := g.run.Rng
 	g.do(class, "reset")
+	// the environment moves only as the real code moves it: a serverConnection's connection never comes
+	// back once it is nil, and the joined backend becomes the connected server only if the join succeeded
+	var gone [nB]bool
 	for i := 0; i < n; i++ {
 		switch k := r.Intn(100); {
 		case k < 45:
@@ -414,14 +417,21 @@ func (g *gen) playSeq(class string, n int) {
 				g.pm(class, g.pickLen())
 			}
 			g.do(class, fmt.Sprintf("pjoin %d", d))
-			g.do(class, fmt.Sprintf("pcur %d", d))
+			if !gone[d] { // handleBackendJoinGame failed otherwise: no setConnectedServer
+				g.do(class, fmt.Sprintf("pcur %d", d))
+			}
 		case k < 77:
 			// the connected server changes only at a join (above) or is dropped (doSwitch / disconnect)
 			g.do(class, "pcur -")
 		case k < 80:
 			g.do(class, "pinfl "+optB(r))
 		case k < 84:
-			g.do(class, fmt.Sprintf("pconn %d %s", r.Intn(nB), b01(r.Chance(2, 3))))
+			if b := r.Intn(nB); r.Chance(1, 3) {
+				gone[b] = true
+				g.do(class, fmt.Sprintf("pconn %d 0", b))
+			} else if !gone[b] {
+				g.do(class, fmt.Sprintf("pconn %d 1", b)) // no-op: still connected
+			}
 		case k < 88:
 			g.do(class, fmt.Sprintf("pstate %d %s", r.Intn(nB), hx.Pick(r, []string{"p", "p", "c"})))
 		case k < 91:
